@@ -278,6 +278,9 @@ def pSingle (o : Opts) : Nat → Bool → List Ch → List CItem → PSt → Opt
         if nx == 93 || nx == 91 then
           -- the hyphen is the last character of the group or a subtraction operator
           pParts o f ng rest (.chr c :: acc) { st with unclear := st.unclear || (hy && !acc.isEmpty) }
+        else if nx == 45 then
+          -- `c--`: an unescaped hyphen as range end point (error in 1.1, literal in some 1.0 readings)
+          pParts o f ng rest (.chr c :: acc) { st with unclear := true }
         else
           match pSingleChar o (nx :: rest2) with
           | none => none
